@@ -4,5 +4,5 @@ cd /verif
 for d in seeded/*/; do
   m=$(basename $d)
   if grep -q neutralised_by $d/meta.json; then echo "== $m neutralised (see meta.json)"; continue; fi
-  /venv/bin/python tools_seeded.py run $m 2>&1 | grep "^== "
+  /venv/bin/python tools_seeded.py run $m -- --jobs ${MATRIX_JOBS:-16} 2>&1 | grep "^== "
 done
